@@ -29,8 +29,17 @@ func configs(prop string, thorough bool) []*Config {
 			},
 			Logins: []LoginDef{{PID: 101}, {PID: 102}, {PID: 104}}, // 104 opens no session
 		}
+		// sshd pids beyond 16 and 24 bits that are congruent to a small pid (pid_max can be 4194304)
+		w := &Config{Name: "C01-pid-width", CutMode: 1, OIdent: true,
+			Sess: []SessDef{
+				{ID: "1", PID: "101", Events: []auparse.AuditMessageType{tLOGIN, tEV, tDISP}},
+				{ID: "2", PID: "65637", Events: []auparse.AuditMessageType{tLOGIN, tEV, tDISP}},   // 101 + 2^16
+				{ID: "3", PID: "4194405", Events: []auparse.AuditMessageType{tLOGIN, tEV, tDISP}}, // 101 + 2^22
+			},
+			Logins: []LoginDef{{PID: 101}, {PID: 65637}, {PID: 4194405}},
+		}
 		if !thorough {
-			return []*Config{c}
+			return []*Config{c, w}
 		}
 		// three sessions in flight: cleanup only with the no-op cut-off (the 2-session alphabet walks every cut-off)
 		c3 := &Config{Name: "C01-3sess", CutMode: 1, OIdent: true, OIntact: true, MaxStates: 4000000,
@@ -42,7 +51,7 @@ func configs(prop string, thorough bool) []*Config {
 			},
 			Logins: []LoginDef{{PID: 101}, {PID: 102}, {PID: 103}, {PID: 104}},
 		}
-		return []*Config{c, c3}
+		return []*Config{c, w, c3}
 	case "C02":
 		ev5 := []auparse.AuditMessageType{tLOGIN, tEV, tEV2, tDISP, tEV}
 		c := &Config{Name: "C02-2sess", CutMode: 1, OSeq: true, OIntact: true,
@@ -192,6 +201,55 @@ func configByName(prop, name string) *Config {
 	return nil
 }
 
+// longSession: one linear history that no small alphabet reaches — a session whose n events (LOGIN ... CRED_DISP)
+// are all held before its login arrives, then the login, then the pid is reused by a second session. Every step
+// is judged by the same reference model (nothing lost from the hold queue however long it is; the ended session
+// is released). Returns the number of operations executed.
+func longSession(run *mc.Run, n int) int {
+	evs := make([]auparse.AuditMessageType, n)
+	evs[0] = tLOGIN
+	for i := 1; i < n-1; i++ {
+		evs[i] = tEV
+	}
+	evs[n-1] = tDISP
+	cfg := &Config{Name: fmt.Sprintf("%s-long-held-session-%d", run.Prop, n), OSeq: true,
+		Sess: []SessDef{
+			{ID: "1", PID: "101", Events: evs},
+			{ID: "2", PID: "101", Events: []auparse.AuditMessageType{tLOGIN, tEV, tDISP}},
+		},
+		Logins: []LoginDef{{PID: 101}, {PID: 101}},
+	}
+	var h []Op
+	for i := 0; i < n; i++ {
+		h = append(h, Op{K: "A", I: 0, J: i})
+	}
+	h = append(h, Op{K: "L", I: 0}, Op{K: "L", I: 1}, Op{K: "A", I: 1, J: 0}, Op{K: "A", I: 1, J: 1}, Op{K: "A", I: 1, J: 2})
+	s := &searcher{cfg: cfg, run: run, seen: map[string]bool{}}
+	w := NewWorld(cfg.Sess, cfg.Logins)
+	defer w.Close()
+	sp := NewSpec(cfg.Sess, cfg.Logins)
+	for i, o := range h {
+		before := w.Rec.Len()
+		err, pan := safeApply(w, o)
+		must, may := sp.Apply(o)
+		class, msg := "", ""
+		if pan != "" {
+			class, msg = "panic-or-deadlock:"+o.K, pan
+		} else {
+			class, msg = s.judge(w, sp, o, before, must, may, err)
+		}
+		if class != "" {
+			if len(msg) > 600 {
+				msg = msg[:600] + "..."
+			}
+			run.Violation(fmt.Sprintf("%s:long-held-session:%s", run.Prop, class), map[string]any{"config": "long-held-session", "events_held": n, "failing_step": i, "step": o.String()},
+				fmt.Sprintf("session 1: %d events (LOGIN ... CRED_DISP) all held before its login; then login 0, login 1 (same pid), session 2. Step %d %s: %s", n, i, o, msg))
+			break
+		}
+	}
+	return len(h)
+}
+
 // runBFS is the entry point for the history checks.
 func runBFS(run *mc.Run) int {
 	if run.Replay != "" {
@@ -238,6 +296,16 @@ func runBFS(run *mc.Run) int {
 			"max_depth": r.MaxDepth, "closure_reached": r.Complete, "sessions": len(cfg.Sess), "logins": len(cfg.Logins),
 			"transitions_with_nonidentity_iteration_order": r.PermChoices, "fan_out_transitions_every_record_type": r.FanOut, "states_left_unjudged_outside_property_domain": r.Unspecified})
 		fmt.Printf("%s: states=%d transitions=%d depth=%d complete=%v nontrivial=%d permchoices=%d\n", cfg.Name, r.States, r.Transitions, r.MaxDepth, r.Complete, r.NonTrivial, r.PermChoices)
+	}
+	if run.Prop == "C02" || run.Prop == "C09" {
+		n := 3000
+		if run.Thorough() {
+			n = 30000
+		}
+		ops := longSession(run, n)
+		cov.Transitions += ops
+		cov.Evaluations += ops
+		per = append(per, map[string]any{"config": "long-held-session (linear history)", "events_held_before_login": n, "operations": ops})
 	}
 	cov.Extra["configs"] = per
 	cov.Assumptions = []string{"alphabet bounded as listed in configs; ids are not reused inside an alphabet except where C09 says so",
